@@ -1192,7 +1192,7 @@ fn gen_case(rng: &mut Rng, k: usize, mode: Mode, stats: &mut Stats) -> Vec<Strin
 	g.out
 }
 
-/// the histories behind the C12 findings, generated in every run
+/// the histories behind the C12 findings (repaired in kira: regression cases), generated in every run
 fn scripted(k: usize, which: usize) -> Vec<String> {
 	let z = o32(0.0);
 	let tw0 = "imm;0;lin";
@@ -1211,6 +1211,10 @@ fn scripted(k: usize, which: usize) -> Vec<String> {
 			"cb 4 2".into(),
 			"q".into(),
 			"clock.drop c0".into(),
+			"cb 4 2".into(),
+			"q".into(),
+			// repaired: the track is Paused, not dead — a plain resume is obeyed
+			format!("track.resume t0 imm {}", tw0),
 			"cb 4 2".into(),
 			"q".into(),
 		],
